@@ -541,6 +541,7 @@ func (u *Universe) Prelude() string {
 			sb.WriteString(fmt.Sprintf("(declare-fun dynres_%d_%s (Int Int) %s)\n", i, srt, srt))
 		}
 	}
+	sb.WriteString("(declare-fun cloFn (Int) Int)\n")
 	sb.WriteString("(define-fun uncmp ((v Val)) Bool (not (comparableVals v v)))\n")
 	if _, ok := u.structs["S_Time"]; ok {
 		sb.WriteString("(declare-fun timeUnix (S_Time) Int)\n")
